@@ -19,7 +19,7 @@ import (
 // jail (absolute symlink targets of the generated trees must not reach the
 // host when a mutant writes through them).
 
-var c15Names = []string{"a", "b", "ab", "c", "d", "e"}
+var c15Names = []string{"a", "b", "ab", "c", "d", "e", "...", "..a"}
 
 type c15Model struct {
 	T        *tree.Tree // expected destination tree
@@ -327,7 +327,7 @@ func init() {
 	core.Register(&core.Prop{
 		ID:    "C15",
 		Level: "exploration",
-		Rule: "source and destination trees (<=14 entries each, depth<=3) are generated independently over the shared names {a,b,ab,c,d,e}; source types f,d,l,fifo,char, destination additionally sockets, so every (source type, destination type) pair collides. " +
+		Rule: "source and destination trees (<=14 entries each, depth<=3) are generated independently over the shared names {a,b,ab,c,d,e,...,..a} (two legal names made of or starting with dots); source types f,d,l,fifo,char, destination additionally sockets, so every (source type, destination type) pair collides. " +
 			"src argument: a source entry, the root ('.', '/', '/.', ''), 'dir/.', or a wildcard ('*','a*','?','[a-c]*','dir/*','*/a'); dst argument: existing directory / non-directory, new name, nested not-yet-existing 'n1/n2', the root, a path below a non-directory; optional leading and trailing separator; flags = random subset of {CopyDirContents, AlwaysReplace, AllowWildcards}. No argument traverses a symlink (C14 does that). " +
 			"fs.Copy runs on disk in a chroot jail and is compared with the executable overlay model (rules 1-7 of DESIGN C15): expected success => snapshot equals the model in paths, types, bytes, targets, rdev, mode/owner (not for directories made only for the path; an existing top-level landing directory keeps its own) and xattrs (nested merged directories: source's added, old ones may stay), unrelated entries keep inode and bytes; expected error => the call fails and the obstacle (with its subtree) keeps inode, type, bytes. A wildcard source is modelled as the sequence of single-source copies of its matches in walk order, each one re-evaluating whether dst exists and is a directory (also when dst does not exist yet or is a non-directory: the first match creates/replaces it, the later ones meet the result); one case in seven is drawn for exactly that: a pattern with >=2 matches whose first match is a directory (the lexically first source entry is turned into a directory in two thirds of them) onto a not-yet-existing plain or nested dst. Any outcome is accepted (and counted by reason) only for: a wildcard without matches, a wildcard prefix that is not a plain directory, and a dst that is a symlink or that an earlier match of the same call turned into a symlink (where later matches go is symlink resolution, C14). " +
 			"Every successful copy is repeated: the second run is checked against the model applied to the first result, and when the landing path is the same the two snapshots must agree in everything but inode/ctime/atime and the mtime of proper ancestors of the landing path. " +
